@@ -276,6 +276,21 @@ def work(case: Any) -> Any:
                     n += 1
                     if compare(steps, frozenset(), v):
                         nontriv += 1
+    elif kind == "sfe_pairs":
+        # StepFailedEvent as an ordinary member of the alphabet (returned by a step, accepted by a plain step): it is a
+        # boundary event on the consuming side only, under every workflow-level skip set
+        alpha = {"a4": [S1, T1, A, StepFailedEvent], "a5": [S1, T1, A, IRE, StepFailedEvent]}[arg]
+        scs = step_configs(alpha)
+        for i in range(lo, hi):
+            a1, r1 = scs[i]
+            for j in range(i, len(scs)):
+                a2, r2 = scs[j]
+                if StepFailedEvent not in a1 + r1 + a2 + r2:
+                    continue
+                for ws in SKIPS:
+                    n += 1
+                    if compare({"s1": cfg(a1, r1), "s2": cfg(a2, r2)}, ws, v):
+                        nontriv += 1
     elif kind == "handlers":
         base = {"begin": cfg((S1,), (A,)), "work": cfg((A,), (T1,))}
         hret = [(T1,), (A,), ()]
@@ -328,7 +343,8 @@ def work(case: Any) -> Any:
 RULE = ("all pairs of step configs (1-2 accepted x 0-2 returned types) over an 8-class (quick: 2 start, 2 stop, 2 plain, "
         "InputRequired subclass, HumanResponse subclass) / 10-class (thorough: + the two base classes) event alphabet; every pair "
         "whose event connectivity is sound is re-validated under all 8 workflow-level skip sets x 4 x 4 step-level skip lists; all "
-        "triples over a 5-class alphabet (thorough); 1-2 @catch_error handlers over 10 for_steps layouts x 8 budgets x both discovery "
+        "triples over a 5-class alphabet (thorough); all pairs that mention StepFailedEvent as an ordinary returned / accepted type over a 4-class "
+        "(thorough 5-class) alphabet under all 8 workflow-level skip sets; 1-2 @catch_error handlers over 10 for_steps layouts x 8 budgets x both discovery "
         "orders and positions; all pairs over the 5-class alphabet also through generated Workflow classes and Workflow.validate(); "
         "accept/reject and the HITL flag compared with an independent restatement of the rules; non-trivial = graphs with sound "
         "connectivity / handler layouts")
@@ -342,6 +358,9 @@ def run(tier: str, seed: int) -> Any:
     cases.append(("handlers", "", 0, 0))
     n5 = len(step_configs(ALPHA5))
     cases += [("public", "", i, min(n5, i + 8)) for i in range(0, n5, 8)]
+    sfe_alpha = "a4" if tier == "quick" else "a5"
+    n_sfe = len(step_configs([S1, T1, A, StepFailedEvent] if tier == "quick" else [S1, T1, A, IRE, StepFailedEvent]))
+    cases += [("sfe_pairs", sfe_alpha, i, min(n_sfe, i + 8)) for i in range(0, n_sfe, 8)]
     if tier != "quick":
         cases += [("triples", "", i, min(n5, i + 2)) for i in range(0, n5, 2)]
     return run_grid(PID, RULE, cases, work, seed=seed, chunksize=1, assumptions=[
